@@ -376,6 +376,47 @@ def repository_section():
     else:
         notes['get_snapshot_location'] = sl
         emit('opaque snapLocSplit : Nat')
+    # --- shapes of the defect fixes (each a Bool the theorems discharge by `decide`)
+    frp = find_func(tree, 'Repository', '_flatten_resolve_paths')
+    fp('repository._flatten_resolve_paths', frp)
+    ret = [n for n in ast.walk(frp) if isinstance(n, ast.Return)]
+    dedup = bool(ret) and unparse(ret[-1].value).startswith('list(dict.fromkeys(')
+    emit(f'def flattenDedups : Bool := {"true" if dedup else "false"}')
+    dc = find_func(tree, 'Repository', 'restore', '_download_chunk')
+    fp('repository.restore._download_chunk', dc)
+    body_txt = [unparse(n) for n in ast.walk(dc) if isinstance(n, (ast.Expr, ast.Assign, ast.If, ast.With))]
+    trunc_ok = False
+    under_lock = False
+    if dc is not None:
+        for n in ast.walk(dc):
+            if isinstance(n, ast.If) and unparse(n.test) in ('finished', 'not digests'):
+                stmts = [unparse(x) for x in n.body]
+                ti = [i for i, x in enumerate(stmts) if x == 'os.truncate(restore_path, files_sizes[file_path])']
+                mi = [i for i, x in enumerate(stmts) if x == 'self.restore_metadata(restore_path, metadata)']
+                trunc_ok = bool(ti and mi and ti[0] < mi[0])
+                under_lock = unparse(n.test) == 'finished'
+            if isinstance(n, ast.With) and unparse(n.items[0].context_expr) == 'glock':
+                stmts = [unparse(x) for x in n.body]
+                if 'digests.remove(digest)' in stmts and 'finished = not digests' in stmts:
+                    under_lock = under_lock and stmts.index('digests.remove(digest)') < stmts.index('finished = not digests')
+    sizes_set = 'files_sizes[file_path] = chunk_position' in [unparse(n) for n in ast.walk(rs) if isinstance(n, ast.Assign)]
+    emit(f'def restoreSetsFinalLength : Bool := {"true" if (trunc_ok and sizes_set) else "false"}')
+    emit(f'def finaliseDecidedUnderLock : Bool := {"true" if under_lock else "false"}')
+    rec_chunkless = False
+    for n in ast.walk(snap):
+        if isinstance(n, ast.For) and unparse(n.iter) == 'state.files':
+            t = unparse(n)
+            rec_chunkless = 'if file.path not in snapshot_files' in t and "'chunks': []" in t and "'digest': file.digest" in t and "'metadata': file.metadata" in t
+    emit(f'def recordsChunklessFiles : Bool := {"true" if rec_chunkless else "false"}')
+    res_chunkless = False
+    for n in ast.walk(rs):
+        if isinstance(n, ast.For) and unparse(n.iter) == 'chunkless_files':
+            stmts = [unparse(x) for x in n.body]
+            res_chunkless = ("self._write_file_part(restore_path, b'', 0)" in stmts and 'os.truncate(restore_path, 0)' in stmts
+                             and 'self.restore_metadata(restore_path, metadata)' in stmts)
+    marks = [unparse(n) for n in ast.walk(rs) if isinstance(n, ast.If)]
+    res_chunkless = res_chunkless and any(m.startswith('if not ordered_chunks:\n    chunkless_files.append(file_path)') for m in marks)
+    emit(f'def restoresChunklessFiles : Bool := {"true" if res_chunkless else "false"}')
     for nm in ('_download_snapshot_threadsafe', '_load_snapshots', 'delete_snapshots', 'clean', '_decrypt_snapshot_body',
                '_encrypt_snapshot_body', '_chunk_digest_to_location_parts', '_snapshot_digest_to_location_parts', 'init',
                'unlock', 'add_key', '_make_key', '_instantiate_key', '_make_config', 'list_snapshots', 'list_files',
